@@ -415,7 +415,7 @@ pub fn generate(tier: &str, seed: u64) -> Vec<Rec> {
         };
         // the plaintext of tensor-type keys is s_i*s_j (coefficients up to n) on one limb: keep b above log2(n)+2 there
         let bmin = if kind >= 3 { log2_ceil(n) + 2 } else { 1 };
-        let bmax = if be <= 2 { (51 - log2_ceil(hw)).min(50) } else { 52 };
+        let bmax = if be <= 2 { (50 - log2_ceil(hw)).min(50) } else { 52 };
         let b = rng.range(bmin as i64, bmax as i64) as usize;
         let dsize = if code == 19003 && kind == 1 { 1 } else { rng.range(1, 3) as usize };
         let dnum = rng.range(1, 3) as usize;
